@@ -71,6 +71,9 @@ def four_formats(b):
                                     list(td.decoded_values_all_subsets[si]))
             if e:
                 return ('conservation', 'subset %d: %s' % (si, e))
+            e = nested.replication_shape(nj[si])
+            if e:
+                return ('replication-shape', 'subset %d: %s' % (si, e))
             e = virtual_refs(nj[si], list(td.decoded_values_all_subsets[si]))
             if e:
                 return ('virtual-attribute', 'subset %d: %s' % (si, e))
